@@ -147,6 +147,17 @@ func (n *Node) Walk(f func(*Node)) {
 	}
 }
 
+// ExportKeys renames every struct field key to its exported Go field name and drops the tags, so that a Go struct
+// of the destination's own type can serve as input data (zog addresses struct data by field name).
+func (n *Node) ExportKeys() {
+	n.Walk(func(x *Node) {
+		for i := range x.Fields {
+			x.Fields[i].Key = x.Fields[i].GoName()
+			x.Fields[i].Tags = nil
+		}
+	})
+}
+
 // ZType is the zconst.ZogType the node reports in issues.
 func (n *Node) ZType() string {
 	switch n.Kind {
